@@ -231,14 +231,23 @@ func runFanout(a fanArgs) fanReal {
 		name := "s" + strconv.Itoa(v)
 		proj.Services[name] = types.ServiceConfig{Name: name, Image: "orig-" + name, Labels: types.Labels{"k": name}}
 	}
+	// goroutines of a run that ended stuck are released at the end and may still call fn: they must not touch `out`
 	var cmu sync.Mutex
+	closed := false
+	defer func() {
+		cmu.Lock()
+		closed = true
+		cmu.Unlock()
+	}()
 	fn := func(name string, svc types.ServiceConfig) (types.ServiceConfig, error) {
 		sch.yield("W.fn", name)
 		v, _ := strconv.Atoi(strings.TrimPrefix(name, "s"))
 		cmu.Lock()
-		out.Calls[name]++
-		if svc.Name != name || svc.Image != "orig-"+name || svc.Labels["k"] != name {
-			out.BadInput = append(out.BadInput, name)
+		if !closed {
+			out.Calls[name]++
+			if svc.Name != name || svc.Image != "orig-"+name || svc.Labels["k"] != name {
+				out.BadInput = append(out.BadInput, name)
+			}
 		}
 		cmu.Unlock()
 		if v < 0 || v >= n || a.Res[v] < 0 {
